@@ -28,6 +28,9 @@ type Case struct {
 	Ack     bool
 	Body    []byte
 	Pad     []byte
+	// Derived: what the derived fields of the message struct (AuthKeyHash, MsgKey) hold when it is handed to Serialize:
+	// "" nothing, "consistent" the values that belong to the key and body, "stale" values of another key / message
+	Derived string `json:",omitempty"`
 }
 
 type informator struct{ c *Case }
@@ -44,7 +47,16 @@ func oracle(c Case) error {
 			key := append([]byte{}, c.Key...)
 			cc := c
 			cc.Key = key
-			pkt, err := (&messages.Encrypted{Msg: append([]byte{}, c.Body...), MsgID: c.MsgID}).Serialize(informator{&cc}, c.Ack)
+			em := &messages.Encrypted{Msg: append([]byte{}, c.Body...), MsgID: c.MsgID}
+			switch c.Derived {
+			case "consistent":
+				em.AuthKeyHash = ref.AuthKeyID(c.Key)
+			case "stale":
+				// the key id and message key of some other key and message: the envelope is derived from the auth key in use
+				em.AuthKeyHash = ref.SHA1(c.Pad, []byte("other key"))[:8]
+				em.MsgKey = ref.SHA1(c.Pad, []byte("other message"))[:16]
+			}
+			pkt, err := em.Serialize(informator{&cc}, c.Ack)
 			if err != nil {
 				return fmt.Errorf("Serialize: %v", err)
 			}
@@ -121,11 +133,14 @@ func record(c Case) {
 	cls := []string{fmt.Sprintf("%s:len%%16=%d", c.Dir, len(c.Body)%16)}
 	if c.Dir == "c2s" {
 		cls = append(cls, fmt.Sprintf("c2s:ack=%v", c.Ack))
+		if c.Derived != "" {
+			cls = append(cls, "c2s:derived-fields-"+c.Derived)
+		}
 	}
 	if len(c.Body) >= 65536 {
 		cls = append(cls, c.Dir+":len>=65536")
 	}
-	run.Case(len(c.Body) > 0, evid.Hash(c.Dir, c.Key, c.Salt, c.Session, c.MsgID, c.SeqNo, c.Ack, c.Body), cls...)
+	run.Case(len(c.Body) > 0, evid.Hash(c.Dir, c.Key, c.Salt, c.Session, c.MsgID, c.SeqNo, c.Ack, c.Body, c.Derived), cls...)
 	run.Sample(map[string]any{"dir": c.Dir, "salt": c.Salt, "session": c.Session, "msg_id": c.MsgID, "seq_no": c.SeqNo, "ack": c.Ack,
 		"body_len": len(c.Body), "key_head": fmt.Sprintf("%x", c.Key[:min(8, len(c.Key))])})
 }
@@ -159,6 +174,7 @@ func gen(t *rapid.T) Case {
 		c.MsgID = i64(t, "msgid") &^ 3
 		c.SeqNo = rapid.Int32Range(0, 1<<30-1).Draw(t, "seq") * 2
 		c.Ack = rapid.Bool().Draw(t, "ack")
+		c.Derived = rapid.SampledFrom([]string{"", "consistent", "stale"}).Draw(t, "derived")
 	case "s2c":
 		c.MsgID = i64(t, "msgid")&^3 | rapid.SampledFrom([]int64{1, 3}).Draw(t, "parity")
 		c.SeqNo = rapid.Int32().Draw(t, "seq")
